@@ -18,6 +18,8 @@ from ..engine import (
     PCT,
     Stratified,
     AfterWrite,
+    Targeted,
+    PROBE_FUNCS,
     count_steps,
     install_copy_shim,
     OpTimeout,
@@ -132,7 +134,8 @@ def generate(seed):
     sk = {}
     sk["mode"] = "pre" if r.random() < 0.8 else "op"
     sk["granularity"] = "opcode" if r.random() < 0.2 else "line"
-    sk["strategy"] = r.choice(["random", "random", "pct", "pct", "stratified", "after-write"])
+    sk["strategy"] = r.choice(["random", "random", "pct", "pct", "stratified", "after-write", "targeted", "targeted"])
+    sk["target"] = r.choice(sorted(PROBE_FUNCS))
     sk["p"] = r.choice([0.002, 0.01, 0.05, 0.3])
     sk["d"] = r.choice([1, 2, 3])
     sk["digest_every"] = r.choice([1, 7, 31, 127])
@@ -287,6 +290,8 @@ def run(case):
             strat = PCT(rs, n, sk["d"], K + sum(len(p) for p in programs))
         elif name == "stratified":
             strat = Stratified(rs, solo)
+        elif name == "targeted":
+            strat = Targeted(rs, sk.get("target", "set_datum"))
         else:
             strat = AfterWrite(rs, sk["p"] / 4)
         faults = []
